@@ -141,7 +141,7 @@ def witness_in_case(Xc, want, C1, C2, signs, fresh, params):
 
 def run(w, rep, tier):
     rep.rule("C13.API", "derive_control_allocation resolves; Function control_allocation(F_max, l, Cm, Ct, T, M) -> (omega, Fp_sum, F_moment, F_thrust, M_sat)")
-    rep.rule("C13.clamp", "every motor force output is a clamp into [0, F_max] (if_else or fmin/fmax idiom, L7) and omega_i = sqrt(Fp_sum_i / Ct)")
+    rep.rule("C13.clamp", "every motor force output is a clamp into [0, F_max] (if_else or fmin/fmax idiom, L7) and omega_i = sqrt(Fp_sum_i / Ct); a zero moment demand selects no division by zero")
     rep.rule("C13.mixer", "mixer matrix: thrust column constant 1/n, moment columns sum to zero, pairwise orthogonal, equal magnitude; forces sum to the (range-limited) thrust")
     rep.rule("C13.cases", "sign-case analysis of the headroom logic over (C1, C2) in {-,0,+}^2: feasible demand reproduced exactly; one-sided saturation shifts the collective thrust by exactly the violated headroom")
     rdd2 = w.mod("cyecca.models.rdd2")
